@@ -638,6 +638,34 @@ theorem acr_optimal (t : T) (m : List (String × String)) (algo : Algo) (out : A
     rw [hsteps]
     exact uppass_optimal _ _ algo t hk hr ht
 
+/-- The returned name→states map (`buildInternalNamesToStatesMap`) says nothing else than the node
+    comments: every entry is (name, or pre-order number when unnamed, of a node that is not a Go tip;
+    the set of state names written at that node). -/
+theorem acr_map_sound (t : T) (m : List (String × String)) (algo : Algo) (out : AcrOut)
+    (h : acr t m algo = some out) (kv : String × List String) (hkv : kv ∈ out.map) :
+    ∃ i, i < t.nodeNames.length ∧ (goTipFlags t).getD i false = false ∧
+      kv.1 = (if t.nodeNames.getD i "" != "" then t.nodeNames.getD i "" else toString i) ∧
+      kv.2 = out.sets.getD i [] := by
+  unfold acr at h
+  split at h
+  · simp at h
+  · simp only [Option.some.injEq] at h
+    subst h
+    simp only [] at hkv
+    rcases mem_foldl_insertKV kv _ [] hkv with h' | h'
+    · rw [List.mem_filterMap] at h'
+      obtain ⟨i, hi, he⟩ := h'
+      rw [List.mem_range] at hi
+      refine ⟨i, hi, ?_⟩
+      by_cases hf : (goTipFlags t).getD i false = true
+      · rw [if_pos hf] at he; cases he
+      · rw [if_neg hf] at he
+        have hkv' := Option.some.inj he
+        refine ⟨by simpa using hf, ?_, ?_⟩
+        · rw [← hkv']
+        · rw [← hkv']
+    · cases h'
+
 /- ## finding AsrNonIupacCharEmptySet (asr/parsimony.go:88), as a theorem about the model -/
 
 def starTree : T :=
